@@ -243,6 +243,9 @@ func (ev *Eval) pkgObject(p *types.Package, name string) (SV, bool) {
 		if types.Identical(o.Type(), types.Universe.Lookup("error").Type()) {
 			return SV{T: ev.c.ErrConst(p.Name(), name), Ty: goTy(ev.c, o.Type())}, true
 		}
+		if v, ok := ev.c.ConstGlobal(p.Path(), name); ok {
+			return SV{T: v, Ty: goTy(ev.c, o.Type())}, true
+		}
 		sort := ev.c.SortOf(o.Type())
 		hn := "G_" + p.Name() + "_" + name
 		ev.c.declHeap(hn, sort)
@@ -775,8 +778,19 @@ func (ev *Eval) call(x *ECall) SV {
 			}
 			n.vars[p.Name] = SV{T: a.T, Ty: ty}
 		}
-		// keep enclosing bound variables reachable by the (already evaluated) arguments only
 		rt := n.resolveType(sf.Result)
+		if sf.Body == nil {
+			// uninterpreted function
+			var sorts []string
+			var as []T
+			for _, p := range sf.Params {
+				v := n.vars[p.Name]
+				sorts = append(sorts, v.T.Sort)
+				as = append(as, v.T)
+			}
+			c.Decl("uf:"+sf.Name, fmt.Sprintf("(declare-fun uf_%s (%s) %s)", sf.Name, strings.Join(sorts, " "), rt.Sort))
+			return SV{T: App("uf_"+sf.Name, rt.Sort, as...), Ty: rt}
+		}
 		r := n.eval(sf.Body)
 		r = n.concretize(r, rt)
 		if r.T.Sort != rt.Sort {
